@@ -45,14 +45,30 @@ POOL = {
 }
 OBJ = [k for k, v in POOL.items() if v[1] is not None]
 
+def _dv(value: str, extra: str, name_required: bool = True, enum: bool = True, more: tuple = ()) -> tuple:
+    kind = {"type": "string", "enum": [value, *more]} if enum else {"type": "string"}
+    sch = {"type": "object", "required": ["kind", "name"] if name_required else ["kind"],
+           "properties": {"kind": kind, "name": {"type": "string"}, extra: {"type": "integer"}}}
+    lo = {"kind": value, "name": "Tom"} if name_required else {"kind": value}
+    return (sch, value, lo, {"kind": value, "name": "Rex", extra: 9}, tuple(more))
+
+
+# discriminated variants: name -> (schema, discriminator value, minimal payload, maximal payload, further mapped values)
 DISC = {
-    "Cat": ({"type": "object", "required": ["kind", "name"], "properties": {"kind": {"type": "string", "enum": ["cat"]}, "name": {"type": "string"}, "lives": {"type": "integer"}}},
-            "cat", {"kind": "cat", "name": "Tom"}, {"kind": "cat", "name": "Tom", "lives": 9}),
-    "Dog": ({"type": "object", "required": ["kind", "name"], "properties": {"kind": {"type": "string", "enum": ["dog"]}, "name": {"type": "string"}, "barkVolume": {"type": "integer"}}},
-            "dog", {"kind": "dog", "name": "Rex"}, {"kind": "dog", "name": "Rex", "barkVolume": 11}),
-    "Eel": ({"type": "object", "required": ["kind"], "properties": {"kind": {"type": "string", "enum": ["eel"]}, "name": {"type": "string"}, "volts": {"type": "integer"}}},
-            "eel", {"kind": "eel"}, {"kind": "eel", "name": "Zap", "volts": 600}),
+    "Cat": _dv("cat", "lives"), "Dog": _dv("dog", "barkVolume"), "Eel": _dv("eel", "volts", name_required=False),
+    # declared names that class-name / module-name derivation rewrites (digit group, acronym run, snake_case)
+    "CatV2": _dv("cat", "lives"), "HTTPDog": _dv("dog", "barkVolume"), "eel_fish": _dv("eel", "volts", name_required=False),
+    # several discriminator values mapped to one schema ("dog" and "puppy" are both Dogs); the property is a plain string ...
+    "CatS": _dv("cat", "lives", enum=False, more=("kitten",)), "DogS": _dv("dog", "barkVolume", enum=False, more=("puppy", "hound")),
+    # ... or an enum listing all of its values
+    "CatE": _dv("cat", "lives", more=("kitten",)), "DogE": _dv("dog", "barkVolume", more=("puppy",)),
 }
+FAMILIES = {"plain": ["Cat", "Dog", "Eel"], "rewritten": ["CatV2", "HTTPDog", "eel_fish"], "several_values_plain_string": ["CatS", "DogS", "Eel"],
+            "several_values_enum": ["CatE", "DogE", "Eel"]}
+
+
+def norm(s: str) -> str:
+    return "".join(ch for ch in (s or "").lower() if ch.isascii() and ch.isalnum())
 
 
 def accepts(variant: str, payload) -> bool:
@@ -77,7 +93,8 @@ def build_doc(unions: list[dict]) -> dict:
                 order.reverse()
             elif u.get("mapping_order") == "sorted":
                 order.sort(key=lambda v: DISC[v][1])
-            node["discriminator"] = {"propertyName": "kind", "mapping": {DISC[v][1]: f"#/components/schemas/{v}" for v in order}}
+            node["discriminator"] = {"propertyName": "kind", "mapping": {val: f"#/components/schemas/{v}" for v in order
+                                                                         for val in (DISC[v][1], *DISC[v][4])}}
         if u.get("nullable"):
             node["nullable"] = True     # "one of these, or null": the union schema itself is nullable
         schemas[u["name"]] = node
@@ -106,15 +123,18 @@ def all_unions(ctx: Ctx) -> list[dict]:
     for t in triples + quads:
         n += 1
         us.append({"name": f"Un{n}", "variants": list(t), "kw": "oneOf" if n % 2 else "anyOf"})
-    for k in (2, 3):
-        for t in itertools.permutations(list(DISC), k):
+    for fam, members in FAMILIES.items():
+      for k in (2, 3):
+        for t in itertools.permutations(members, k):
+            if fam != "plain" and k == 3 and t[0] > t[1]:
+                continue      # the extra families: every pair in both orders, triples in half of the orders
             n += 1
-            us.append({"name": f"Du{n}", "variants": list(t), "kw": "oneOf", "disc": True})
+            us.append({"name": f"Du{n}", "variants": list(t), "kw": "oneOf", "disc": True, "family": fam})
             for mo in ("reversed", "sorted"):   # the mapping may list the variants in another order than oneOf does
                 n += 1
-                us.append({"name": f"Du{n}", "variants": list(t), "kw": "oneOf", "disc": True, "mapping_order": mo})
+                us.append({"name": f"Du{n}", "variants": list(t), "kw": "oneOf", "disc": True, "mapping_order": mo, "family": fam})
             n += 1
-            us.append({"name": f"Du{n}", "variants": list(t), "kw": "oneOf", "disc": True, "nullable": True})
+            us.append({"name": f"Du{n}", "variants": list(t), "kw": "oneOf", "disc": True, "nullable": True, "family": fam})
     return us
 
 
@@ -133,9 +153,15 @@ def run_doc(ctx: Ctx, unions: list[dict], n: int, only=None) -> None:
         rec.count("unions")
         if u.get("disc"):
             rec.count("discriminated_unions")
+            rec.count(f"discriminated_unions_{u.get('family', 'plain')}")
         for vi, v in enumerate(u["variants"]):
             lo, hi = (DISC[v][2], DISC[v][3]) if v in DISC else (POOL[v][2], POOL[v][3])
-            for pk, payload in (("minimal", lo), ("maximal", hi)):
+            plist = [("minimal", lo), ("maximal", hi)]
+            if v in DISC:
+                # every further discriminator value mapped to this schema is as good a selector as the first one
+                plist += [(f"value_{val}", dict(hi, kind=val)) for val in DISC[v][4]]
+                rec.count("payloads_with_further_mapped_value", len(DISC[v][4]))
+            for pk, payload in plist:
                 for pos in ("as_alias", "as_field", "as_list_item", "as_named_array_field"):
                     rid = f"{u['name']}-{vi}-{pk}-{pos}"
                     if pos == "as_alias":
@@ -155,7 +181,7 @@ def run_doc(ctx: Ctx, unions: list[dict], n: int, only=None) -> None:
             rts.append({"id": rid, "model": u["name"], "json": {"kind": "unicorn", "name": "U"}})
             meta[rid] = {"u": u, "kind": "unmapped", "payload": {"kind": "unicorn", "name": "U"}, "pos": "as_alias"}
             v = u["variants"][-1]
-            if v != "Eel":
+            if "name" in DISC[v][0]["required"]:
                 bad = {"kind": DISC[v][1], "lives": 1, "barkVolume": 2}   # 'name' (required) missing
                 rid = f"{u['name']}-broken"
                 rts.append({"id": rid, "model": u["name"], "json": bad})
@@ -195,6 +221,7 @@ def run_doc(ctx: Ctx, unions: list[dict], n: int, only=None) -> None:
             feats.append("second_pass_reverse_order")
         if u.get("disc"):
             feats.append("discriminated")
+            feats.append(f"family_{u.get('family', 'plain')}")
         if m["kind"] == "unmapped":
             rec.count("unmapped_discriminator_checks")
             if o["stage"] == "ok":
@@ -206,7 +233,7 @@ def run_doc(ctx: Ctx, unions: list[dict], n: int, only=None) -> None:
                 rec.violation("discriminator:undecodable_mapped_variant_retried_as_another", feats, case, json.dumps(o)[:200])
             continue
         rec.count("roundtrips")
-        rec.count(f"payload_{m['pk']}")
+        rec.count(f"payload_{m['pk']}" if m["pk"] in ("minimal", "maximal") else "payload_further_value")
         rec.count(m["pos"])
         if o["stage"] == "import":
             rec.violation("union:model_not_found", feats, case, json.dumps(o.get("exc", {}))[:200])
@@ -218,7 +245,7 @@ def run_doc(ctx: Ctx, unions: list[dict], n: int, only=None) -> None:
         diff = refmodel.jdiff(want, o["back"])
         if diff:
             rec.violation(f"union:{m['pos']}:lossy_decode", feats, case, diff[:200])
-        elif u.get("disc") and m["pos"] == "as_alias" and o.get("pytype") != m["variant"]:
+        elif u.get("disc") and m["pos"] == "as_alias" and norm(o.get("pytype")) != norm(m["variant"]):
             rec.violation("discriminator:wrong_variant_class", feats, case, f"{o.get('pytype')} != {m['variant']}")
     if len(rec.samples) < 2:
         u = unions[0]
